@@ -7,6 +7,8 @@ LEVELS = {
     "C05": "proof",
     "C10": "proof",
     "C14": "other",
+    "C13": "other",
+    "C18": "other",
 }
 EXPLAIN = {}
 TRUSTED = [
